@@ -8,6 +8,8 @@ props = [json.loads(l) for l in open(os.path.join(ROOT, 'properties.jsonl'))]
 CLAIMS = {
  'C01': ('proof + correspondence', 'Lean 4 invariant proof (MoneyInv: escrow backed, supply = sum of balances, no mint/burn outside swap) by induction over all histories of the hand-written model; model tied to the code by lock-step differential execution of the real app',
          'DESIGN.md §7 C01'),
+ 'C05': ('proof + correspondence', 'Lean 4 single-step theorems: whenever the regenerated AmountForBytes / GetProportionOfCoin return, they return the exact ceiling / half-even share (no range hypothesis); an accepted per-gigabyte / per-hour / plan purchase moves exactly quote x quantity (resp. the plan price, split into exactly rounded fee + rest), unquoted denominations are rejected, metered settlement charges the difference of rounded-up cumulative charges at deposit/gigabytes = quoted price; tied by lock-step execution (bank, deposit, subscription, payout, events)',
+         'DESIGN.md §7 C05'),
  'C10': ('proof over regenerated fact tables + differential re-execution', 'Lean 4: the regenerated table of nondeterminism-prone constructs (map ranges, time.Now, rand, go/select, floats) over all consensus-critical sources equals a justified list (decide); begin/end-blocker order facts; the model is a pure function of genesis and history. Runtime half is differential only: the same history re-executed in fresh processes with GOMAXPROCS 1/4/16, outputs incl. app hash compared byte for byte',
          'DESIGN.md §7 C10'),
  'C19': ('proof + regenerated descriptors + differential probe', 'Lean 4 protobuf wire model with binary_roundtrip for every well-formed descriptor, instantiated to all 264 message descriptors regenerated from proto/sentinel/**; JSON half reduced to the regenerated Status tables (status_json_roundtrip_fails: known finding F7); probe19 compares model bytes with the real ProtoCodec on type-directed values of every registered type and mutated bytes through decode',
